@@ -1,30 +1,39 @@
-use engeom::func1::Polynomial;
-use parry2d_f64::na::DMatrix;
-fn run<const K: usize>() {
-    let mut s: u64 = 12345;
+use parry2d_f64::na::{DMatrix, Matrix3};
+fn main() {
+    let mut s: u64 = 4242;
     let mut rnd = || { s ^= s << 13; s ^= s >> 7; s ^= s << 17; (s >> 11) as f64 / (1u64 << 53) as f64 };
-    let mut worst = vec![0.0f64; 12];
-    for _ in 0..20000 {
-        let centre = -1.5 + 3.0 * rnd();
-        let hw = 0.2 + 1.8 * rnd();
-        let n = K + 3 + (rnd() * 30.0) as usize;
-        let xs: Vec<f64> = (0..n).map(|_| centre + hw * (2.0 * rnd() - 1.0)).collect();
-        let mut c = [0.0; K];
-        for k in 0..K { c[k] = 20.0 * rnd() - 10.0; }
-        let p = Polynomial::<K>::new(c);
-        use engeom::func1::Func1;
-        let ys: Vec<f64> = xs.iter().map(|x| p.f(*x)).collect();
-        let mut m = DMatrix::<f64>::zeros(K, K);
-        for r in 0..K { for cc in 0..K { m[(r, cc)] = xs.iter().map(|x| x.powi((r + cc) as i32)).sum(); } }
-        let sv = m.svd(false, false).singular_values;
-        let cond = sv.max() / sv.min();
-        if !(cond < 1e12) { continue; }
-        let fit = Polynomial::<K>::least_squares(&xs, &ys, None);
-        let err = (0..K).map(|k| (fit.c[k] - c[k]).abs()).fold(0.0, f64::max);
-        let b = cond.log10().floor() as usize;
-        let ratio = err / (2.2e-16 * cond * 10.0);
-        if ratio > worst[b.min(11)] { worst[b.min(11)] = ratio; }
+    // variants: 0 default svd, 1 try_svd eps=1e-16 , 2 svd of transpose, 3 svd of gram, 4 QR then svd of R, 5 symmetric_eigen
+    let mut worst = [0.0f64; 6];
+    let mut bad = [0usize; 6];
+    let total = 100000;
+    for _ in 0..total {
+        let n = 4 + (rnd() * 110.0) as usize;
+        let kind = (rnd() * 4.0) as usize;
+        let st = match kind { 0 => [1.0, 0.0, 0.0], 1 => [1.0, 0.5, 0.0], _ => [10f64.powf(2.0 * rnd() - 1.0), 10f64.powf(2.0 * rnd() - 1.0), 10f64.powf(2.0 * rnd() - 1.0)] };
+        let mut m = DMatrix::<f64>::zeros(n, 3);
+        for i in 0..n { for j in 0..3 { m[(i, j)] = (2.0 * rnd() - 1.0) * st[j]; } }
+        let a = rnd() * 6.28; let (sa, ca) = a.sin_cos();
+        let b = rnd() * 6.28; let (sb, cb) = b.sin_cos();
+        for i in 0..n { let (x, y) = (m[(i,0)], m[(i,1)]); m[(i,0)] = ca*x - sa*y; m[(i,1)] = sa*x + ca*y;
+                        let (y, z) = (m[(i,1)], m[(i,2)]); m[(i,1)] = cb*y - sb*z; m[(i,2)] = sb*y + cb*z; }
+        // centre
+        for j in 0..3 { let mean: f64 = (0..n).map(|i| m[(i,j)]).sum::<f64>() / n as f64; for i in 0..n { m[(i,j)] -= mean; } }
+        let g: Matrix3<f64> = Matrix3::from_fn(|r, c| (0..n).map(|i| m[(i, r)] * m[(i, c)]).sum());
+        // exact-ish reference: Jacobi on 3x3
+        let mut aa = g; let mut ev = [0.0; 3];
+        for _ in 0..60 { for (p, q) in [(0usize,1usize),(0,2),(1,2)] { if aa[(p,q)].abs() < 1e-300 { continue; }
+            let th = (aa[(q,q)] - aa[(p,p)]) / (2.0 * aa[(p,q)]); let t = th.signum() / (th.abs() + (th*th + 1.0).sqrt()); let c = 1.0 / (t*t + 1.0).sqrt(); let sn = t * c;
+            let mut r = Matrix3::<f64>::identity(); r[(p,p)] = c; r[(q,q)] = c; r[(p,q)] = sn; r[(q,p)] = -sn; aa = r.transpose() * aa * r; } }
+        for k in 0..3 { ev[k] = aa[(k,k)].max(0.0).sqrt(); }
+        ev.sort_by(|a, b| b.partial_cmp(a).unwrap());
+        let cmp = |v: Vec<f64>| -> f64 { let mut v = v; v.sort_by(|a, b| b.partial_cmp(a).unwrap()); (0..3).map(|k| (v[k] - ev[k]).abs() / ev[0].max(1e-300)).fold(0.0, f64::max) };
+        let r0 = cmp(m.clone().svd(false, true).singular_values.iter().cloned().collect());
+        let r1 = cmp(m.clone().try_svd(false, true, 1e-16, 0).unwrap().singular_values.iter().cloned().collect());
+        let r2 = cmp(m.transpose().svd(true, false).singular_values.iter().cloned().collect());
+        let r3 = cmp(g.svd(false, true).singular_values.iter().map(|x| x.sqrt()).collect());
+        let r4 = cmp(m.clone().qr().r().svd(false, true).singular_values.iter().cloned().collect());
+        let r5 = cmp(g.symmetric_eigen().eigenvalues.iter().map(|x| x.max(0.0).sqrt()).collect());
+        for (k, r) in [r0, r1, r2, r3, r4, r5].iter().enumerate() { worst[k] = worst[k].max(*r); if *r > 1e-6 { bad[k] += 1; } }
     }
-    println!("K={K} worst err/(eps*cond*10) by log10(cond) bucket: {:?}", worst.iter().map(|x| format!("{:.1e}", x)).collect::<Vec<_>>());
+    println!("worst {:?}\nbad(>1e-6) of {total}: {:?}", worst.map(|x| format!("{:.1e}", x)), bad);
 }
-fn main() { run::<2>(); run::<3>(); run::<4>(); run::<5>(); run::<6>(); }
